@@ -18,7 +18,7 @@ LEVEL = "model_checking"
 RULE = (
     "factored: bases = all tables of CT(2,2,1) and CT(1,1,4) x per dtype all injective maps of the <=2 labels of a side into LABq={1,2,128,255,256,65535,65536,70000} within the dtype, applied to "
     "the prediction only, the reference only (uint8/16/32) and both sides (all dtypes) (UNMATCHED: threshold IoU .5 with all three families; threshold Dice at the lowest breakpoint and merge IoU .5 with the both-sides family; MATCHED: joint map); "
-    "full product pred-map x ref-map on 12 fixed bases (uint8: all three matchers, uint32: threshold IoU .5); generators on G1(4,2)^2 (thorough: + CT(2,2,2), G2(2,2,2)^2): 4 (thorough 8) single-side maps to the top of each dtype range / past the next dtype boundary + all four dtypes with unchanged labels; "
+    "labels beyond 2^20 ({1048577, 1048581, 7}, all ordered pairs; same / crossed / one side only) on every factored base in uint32; full product pred-map x ref-map on 12 fixed bases (uint8: all three matchers, uint32: threshold IoU .5); generators on G1(4,2)^2 (thorough: + CT(2,2,2), G2(2,2,2)^2): 4 (thorough 8) single-side maps to the top of each dtype range / past the next dtype boundary + all four dtypes with unchanged labels; "
     "SEMANTIC: G2(2,2,2) x 27 refs x 6 label maps x unsigned and signed dtypes x backend {default,cc3d}. thorough adds CT(2,2,2) to the factored family, G2(2,2,2)^2 generators and label 2^24-1. "
     "non-trivial = at least one candidate pair and a label value >= 128 involved; distinct by (base, map, dtype, configuration)"
 )
@@ -26,6 +26,7 @@ ASSUMPTIONS = ["guard: equality is demanded only when no two competing candidate
 BUDGET = {"quick": 240, "thorough": 2400}
 
 LABQ = (1, 2, 128, 255, 256, 65535, 65536, 70000)
+BIG = (1048577, 1048581, 7)
 MATCHERS = (["thr", "IOU", 0.5, False], ["thr", "DSC", "LOW", False], ["merge", "IOU", 0.5])
 FULL_BASES = [
     ([1, 1, 1, 0, 0], [1, 1, 1, 0, 0]), ([1, 1, 1, 1, 2], [1, 1, 1, 0, 0]), ([1, 1, 2, 2, 0], [1, 1, 1, 2, 0]), ([1, 1, 1, 2, 2, 2], [1, 1, 1, 1, 2, 2]),
@@ -199,6 +200,14 @@ def run_case(case, acc):
                 rc = {**case, **rec, "pred": sc.arr_to_case(P), "ref": sc.arr_to_case(R)}
                 for m in MATCHERS[1:]:
                     compare(acc, rc, base, "UNMATCHED", m, P, R, f"pmap={pm} rmap={rm_}")
+            # labels beyond 2**20 (sparse-table territory), crossed between the sides: uint32 only
+            if dt == "uint32":
+                for img in itertools.permutations(BIG, 2):
+                    for pm, rm_ in (({l: img[(l - 1) % 2] for l in pl}, {l: img[1 - (l - 1) % 2] for l in rl}), ({l: img[(l - 1) % 2] for l in pl}, ident_r), (ident_p, {l: img[(l - 1) % 2] for l in rl}),
+                                    ({l: img[(l - 1) % 2] for l in pl}, {l: img[(l - 1) % 2] for l in rl})):
+                        P, R = sc.relabel(bp, pm, dt), sc.relabel(br, rm_, dt)
+                        rc = {**case, **rec, "pred": sc.arr_to_case(P), "ref": sc.arr_to_case(R)}
+                        compare(acc, rc, base, "UNMATCHED", MATCHERS[0], P, R, f"pmap={pm} rmap={rm_}")
             # matched input: one joint injective map
             labs = tuple(sorted(set(pl) | set(rl)))
             for jm in sc.injective_maps(labs, targets):
